@@ -166,6 +166,7 @@ def split_trace(path, nchunks, outdir, marker='"e":"reset"'):
 def validate_chunks(ctx, module, chunks, env=None, cfg=None, timeout=1800, heap="3g"):
     """Run the trace spec on every chunk in parallel. Returns list of dict(file, out, states, complete)."""
     res = []
+    ctx.specdir()   # create the scratch copy before the worker threads race for it
 
     def one(ch):
         fn, n = ch
